@@ -899,7 +899,7 @@ JUDGES = {
     "C01": [j_extreme], "C02": [j_extreme], "C03": [j_contents], "C04": [j_wf], "C05": [j_cost],
     "C06": [j_sorted, j_nofault], "C07": [j_contents, j_extreme, j_nofault], "C08": [j_contents, j_extreme, j_nofault], "C09": [j_contents, j_nofault],
     "C10": [j_wf], "C11": [j_contents, j_extreme], "C12": [j_contents, j_extreme], "C13": [j_iters, j_sorted, j_nofault], "C14": [j_eq, j_contents],
-    "C15": [j_contents, j_extreme, j_wf], "C16": [j_contents, j_iters, j_wf], "C17": [j_capacity, j_contents],
+    "C15": [j_contents, j_extreme, j_wf, j_eq], "C16": [j_contents, j_iters, j_wf], "C17": [j_capacity, j_contents],
     "C18": [j_contents, j_extreme],
 }
 
